@@ -347,6 +347,77 @@ def run_freeform(args):
     return p
 
 
+def run_cli_part(_):
+    """`pybufrkit query`: text output over two files, flat (-j) and nested (-j -n) JSON output, with and without template
+    compilation; what is printed must be the values the expression designates (evaluated over the nested JSON)"""
+    import json
+    from mc.engine.cli import run_cli
+    from mc.checks.c18 import generated_message
+    p = Partial()
+    scratch = os.environ.get('VERIF_SCRATCH') or '/dev/shm'
+    files = []
+    try:
+        msgs = []
+        for k, (counts, comp) in enumerate((((0, 2, 1), False), ((2, 2), True))):
+            fn = os.path.join(scratch, 'c16_%d_%d.bufr' % (os.getpid(), k))
+            b = generated_message(counts, comp)
+            with open(fn, 'wb') as f:
+                f.write(b)
+            files.append(fn)
+            st = S.impl_decode(CC.decoder(), b)
+            msgs.append(nested_td(st[2]))
+        for q in ('/102000/012001', '/001001', '@[-1]/102000/002001[0]', '/102000.031001', '@[::2]/005002', '/102000/012001[-1:]',
+                  '@[0]/102000/012001[::-1]'):
+            selector = None
+            path = q
+            if q.startswith('@'):
+                selector, path = q[:q.index(']') + 1], q[q.index(']') + 1:]
+            from mc.ref import pathlang
+            comps = pathlang.parse(q)[1]
+            for cc in (None, '2'):
+                exps = []
+                for td in msgs:
+                    exps.append(expected(td, selector, comps))
+                base = ['query'] + (['--compiled-template-cache-max', cc] if cc else [])
+                # text mode, both files in one invocation
+                out, err, exc, code = run_cli(base + [q] + files)
+                p.n['exec'] += 1
+                case = {'query': q, 'mode': 'text', 'compiled': cc}
+                lines = []
+                for fn, ex, td in zip(files, exps, msgs):
+                    lines.append(fn)
+                    for i in sorted(ex[1]):
+                        lines.append('###### subset %d of %d ######' % (i + 1, len(td)))
+                        lines.append(','.join(repr(v) for v in _flatten(ex[1][i])))
+                p.outcome(('text', cc is None, selector is None))
+                if exc is not None or code not in (None, 0):
+                    p.violation('cli-query-fails|text', case, 'ended with %r / exit %r: %s' % (exc, code, err[-200:]))
+                elif out.split('\n')[:-1] != lines:
+                    p.violation('cli-query-output|text', case, 'printed %r, expected %r' % (out.split('\n')[:-1][:8], lines[:8]))
+                for mode, flags in (('flat-json', ['-j']), ('nested-json', ['-j', '-n'])):
+                    for fn, ex in zip(files, exps):
+                        out, err, exc, code = run_cli(base + flags + [q, fn])
+                        p.n['exec'] += 1
+                        case = {'query': q, 'mode': mode, 'compiled': cc, 'file': os.path.basename(fn)}
+                        p.outcome((mode, cc is None, selector is None))
+                        if exc is not None or code not in (None, 0):
+                            p.violation('cli-query-fails|' + mode, case, 'ended with %r / exit %r: %s' % (exc, code, err[-200:]))
+                            continue
+                        try:
+                            got = json.loads(out)
+                        except ValueError:
+                            p.violation('cli-query-output|' + mode, case, 'not JSON: %r' % out[:120])
+                            continue
+                        want = {str(i): (_flatten(v) if mode == 'flat-json' else v) for i, v in ex[1].items()}
+                        if sorted(got) != sorted(want) or not all(same_nested(got[k_], want[k_]) for k_ in want):
+                            p.violation('cli-query-output|' + mode, case, 'printed %r, expected %r' % (got, want))
+    finally:
+        for fn in files:
+            if os.path.exists(fn):
+                os.remove(fn)
+    return p
+
+
 def restore(descs, subs, compressed):
     """re-encode the given expected subsets with the other storage form"""
     B, D = S.tables_for(33)
@@ -415,6 +486,9 @@ def run_corpus(args):
 
 
 def replay(part, case):
+    if part == 'cli':
+        p = run_cli_part(None)
+        return [{'sig': v['sig'], 'detail': v['detail']} for v in p.viol if v['case'] == case]
     if part == 'freeform':
         from mc.gen import freeform as F
         cnt, viols = judge_message(F.build(case['descs'], case['pattern'], case['nsub'], case['compressed']), 1, path_cap=24,
@@ -492,4 +566,8 @@ def main(tier, seed):
     p = merge_all(run_shards(run_corpus, [(s, cap) for s in split(msgs, 128)]))
     rep.add_part('corpus', p, bounds={'messages': len(msgs), 'paths_per_message_cap': cap, 'slices_on': 'last step'},
                  caps_hit=[] , extra={'note': 'corpus messages are visited with the first %d id-paths each' % cap})
+    p = run_cli_part(None)
+    p.n['nodes'], p.n['edges'] = p.n['exec'] + 1, p.n['exec']
+    rep.add_part('cli', p, bounds={'invocations': p.n['exec'], 'modes': ['text (two files)', '-j', '-j -n'],
+                                   'compiled_template_cache_max': [None, 2]})
     return rep.finish()
